@@ -22,6 +22,7 @@ func init() {
 			"R2.5 label precedence on the discovery side: all per-target labels enter the label set, group labels only where the target does not define the label itself (Prometheus' rule); R2.4 group shape: one group per assigned target, every label of the target copied unconditionally, __address__ taken from the target's labels, the hash parameter rendered from Target.Hash. " +
 			"R2.6 completed address: after relabeling, __address__ and the instance default are the port-completed address and the address check is made on it (Prometheus' order); R2.7 fresh translation: every published target is translated in the current update under the job configuration that is current then (kept translations are reported: their invalidation is not decidable). " +
 			"R2.6 also: the job defaults (job, metrics path, scheme) are set before relabeling exactly under 'discovered value is empty'; R2.8 the labels derived from the job's params are removed by their full name __param_<key> or by the name with exactly that prefix removed (no cut-set trimming or replacing of the name). " +
+			"R2.9 no field of a url.URL is written in pkg/scrape: the target is requested at the URL the proxy rebuilt. " +
 			"Not decided: everything that depends on label values (relabel evaluation, de-duplication, dropped targets).",
 		Assumptions: []string{"go/types and go/ssa are correct"}})
 }
@@ -116,9 +117,11 @@ func runC02(p *engine.Prog, r *engine.Report) {
 	r.Min("R2.6-completed-address", 1)
 	r.Min("R2.7-fresh-translation", 1)
 	r.Min("R2.8-param-labels", 1)
+	r.Min("R2.9-request-url", 1)
 	checkPopulate(p, r)
 	checkFreshTranslation(p, r)
 	checkParamFilter(p, r)
+	checkRequestURL(p, r)
 
 	// ---- the group writer: function building targetgroup.Group from []*target.Target
 	var writer *ssa.Function
@@ -774,7 +777,28 @@ func controlsC02(p *engine.Prog) []Control {
 		}
 		return off(id.Pos()), off(id.End()), "strings.ToLower(k)", true
 	})
-	return []Control{c1}
+	// the scraper edits the URL it requests -> R2.9 (instance count zero on the tree)
+	c2 := astControl(p, pkgScrape, "request URL host rewritten in the scraper", "C02/R2.9", func(n ast.Node, src []byte, off func(token.Pos) int) (int, int, string, bool) {
+		es, ok := n.(*ast.ExprStmt)
+		if !ok {
+			return 0, 0, "", false
+		}
+		call, ok := es.X.(*ast.CallExpr)
+		if !ok {
+			return 0, 0, "", false
+		}
+		sel, ok := call.Fun.(*ast.SelectorExpr)
+		if !ok || sel.Sel.Name != "Add" {
+			return 0, 0, "", false
+		}
+		hs, ok := sel.X.(*ast.SelectorExpr)
+		if !ok || hs.Sel.Name != "Header" {
+			return 0, 0, "", false
+		}
+		recv := string(src[off(hs.X.Pos()):off(hs.X.End())])
+		return off(es.Pos()), off(es.Pos()), recv + ".URL.Host = " + recv + ".URL.Host + \"\"\n\t", true
+	})
+	return []Control{c1, c2}
 }
 
 // constTableElems: v is the element variable of a range (index loop) over a package-level []string that is
